@@ -28,6 +28,9 @@ CHECKS = {
  "C18": dict(cat="proof", tech="contract-based deductive: Bezier class and derive_* functions traced from the real code; polynomial/rational identities in (t, T, control points, boundary data) decided by ring normal forms (ALG)",
              text="eval = Bernstein polynomial, end points, every derivative order m <= n equals the m-th time derivative, cubic and septic boundary-value solvers meet every boundary condition at both ends, stacked trajectory outputs are successive derivatives; for all t, T > 0, control points and boundary data, per listed degree/dimension.",
              note=A_GRAPH + "; CasADi symbolic differentiation on the spec side; degrees enumerated (shipped 3 and 7, generic class up to 10 in thorough)", ref="5/C18"),
+ "C13": dict(cat="proof", tech="contract-based deductive: control_allocation traced from the real code; postconditions over its piecewise graph decided by z3/cvc5 (QF_NRA/LRA) after exact ring normalisation of branch-free sub-terms and folding of conditions decided by the requires; frame (dominator) check on the graph; ring identity for the mixer inverse",
+             text="For symbolic positive F_max, l, Cm, Ct and every demand: forces in [0, F_max], speeds finite and non-negative, M_sat range-limited; for range-limited demands (to which every demand reduces by the dominance obligation): feasible demands reproduced exactly, and when the moment spread fits in F_max the realised moment equals the demand with a uniform, least collective shift.",
+             note="A-GRAPH; real arithmetic (IEEE rounding of the shift not modelled); z3/cvc5; own encoder", ref="5/C13"),
 }
 NA = {
  "C17": "closed-loop convergence of the hybrid cascade from an envelope of initial conditions is a whole-trajectory property; no pre/postcondition on a function of /repo expresses it short of a Lyapunov certificate (its per-call ingredients are C13, C15, C16)",
